@@ -163,7 +163,7 @@ def kinds_convert(a, b, isnone, n, ext=False):
 
 def build(tier, seed):
     quick = tier == "quick"
-    tmo = 120 if quick else 900
+    tmo = 120 if quick else 300
     m = Module("c17_kinds").pre(SETUP)
     m.ob("creation", "x: int", "return not ERR", timeout=30, family="model kinds", bounds="6 kinds x 4 recipes x strict/lax loaders and dumpers, 36 converters")
     pure = "['dataclass', 'namedtuple', 'typeddict', 'attrs']"
